@@ -1,9 +1,12 @@
 import Bandit.Proofs.Loc
 import Bandit.Proofs.Nosec
 import Bandit.Format
+import Bandit.Proofs.Renum
+import Bandit.Proofs.RelLoc
 /-!
 # C10 — Reported locations and excerpts point at the flagged code
 -/
+set_option linter.unusedSimpArgs false
 namespace Props.C10
 open Bandit
 
@@ -182,5 +185,240 @@ theorem excerpt_bound (file : List Str) (lineno rangeLen : Nat) (n : Int) (tabbe
     · simp only [List.length_cons]
       have := ih (l + 1)
       omega
+
+/-! ## Equivariance: renumbering the lines renumbers the findings and changes nothing else -/
+
+/-- the well-formedness facts of a CPython 3.12 tree the theorem uses (asserted by `astser.check_wf` on
+every tree the harness serialises): an unpositioned list member has unpositioned list-siblings, and
+there is no node of the pseudo-kind `File` -/
+structure TreeWF (root : Node) : Prop where
+  sib : ∀ v ∈ visits root, v.node.pos = none → v.sib.bind Node.line? = none
+  noFile : ∀ v ∈ visits root, v.node.kind ≠ "File".toList
+
+/-- a check the theorem covers: position-blind or position-invariant and locating relative to the node
+(`CheckOK`), or a file-level check (those run on the `File` pseudo-node only, never during the traversal) -/
+def CheckCovered (c : Check) : Prop := CheckOK c ∨ c.kinds = ["File".toList]
+
+/-- `[0, 1]` fallback ranges stay `[0, 1]`: either `ρ` fixes 0 and 1 (nothing is inserted before line 2),
+or no check is registered for the kind of any node that has neither a position nor a positioned node
+below it (true of bandit's checks: such nodes are `Load`, `Store`, operators, empty `arguments`) -/
+def FallbackOK (ρ : Nat → Nat) (checks : List Check) (root : Node) : Prop :=
+  (ρ 0 = 0 ∧ ρ 1 = 1) ∨
+    ∀ v ∈ visits root, (v.node.defaulted ∨ ∃ p, v.anc.head? = some p ∧ p.defaulted) →
+      ∀ kc, dispatch v = some kc → checksFor checks kc.1 = []
+
+theorem visitFine_of {ρ : Nat → Nat} {checks : List Check} {root : Node} (hwf : TreeWF root)
+    (hc : ∀ c ∈ checks, CheckCovered c) (hfb : FallbackOK ρ checks root) :
+    ∀ v ∈ visits root, VisitFine ρ checks v := by
+  intro v hv
+  have hchecks : ∀ kc, dispatch v = some kc → ∀ c ∈ checksFor checks kc.1, CheckOK c := by
+    intro kc hd c hcm
+    have hcm' := List.mem_filter.mp hcm
+    rcases hc c hcm'.1 with hok | hfile
+    · exact hok
+    · exfalso
+      have hk : kc.1 = "File".toList := by
+        have := hcm'.2
+        rw [hfile] at this
+        simpa using this
+      rcases dispatch_kind_cases hd with h | h | h | h
+      · exact hwf.noFile v hv (by rw [← h, hk])
+      · rw [hk] at h; revert h; decide
+      · rw [hk] at h; revert h; decide
+      · rw [hk] at h; revert h; decide
+  rcases hfb with h01 | hno
+  · exact Or.inl ⟨⟨hwf.sib v hv, fun _ => h01, fun _ _ _ => h01⟩, hchecks⟩
+  · by_cases hd : v.node.defaulted ∨ ∃ p, v.anc.head? = some p ∧ p.defaulted
+    · exact Or.inr (hno v hv hd)
+    · refine Or.inl ⟨⟨hwf.sib v hv, fun h => absurd (Or.inl h) hd, fun p hp hpd => absurd (Or.inr ⟨p, hp, hpd⟩) hd⟩, hchecks⟩
+
+/-- **Equivariance.**  For every strictly monotone renumbering `ρ` of the lines of a file — the tree's
+positions moved along `ρ`, the nosec comments moved along `ρ`, the new lines outside the image of `ρ`
+carrying no nosec comment — the traversal yields the *same* events (findings, findings withheld by
+nosec, skipped tests, crashes, in the same order, with the same test, severity, confidence and column)
+with every line moved along `ρ` and every range mapped as the interval between its moved end points.
+Nothing else changes.  Unbounded in the tree, the checks (any list of covered checks), the comments
+and `ρ`. -/
+theorem equivariant (ρ : Nat → Nat) (hρ : StrictMonoNat ρ) (checks : List Check) (hc : ∀ c ∈ checks, CheckCovered c)
+    (root : Node) (hwf : TreeWF root) (hfb : FallbackOK ρ checks root)
+    (nm nm' : NosecMap) (hm : NosecMoved ρ nm nm') (lines lines' : List Str) :
+    scanVisits checks nm' lines' {} (visits (root.renum ρ))
+      = (scanVisits checks nm lines {} (visits root)).map (Event.renum ρ) := by
+  rw [visits_renum]
+  have := scanVisits_renum hρ hm checks lines {} (visits root) (visitFine_of hwf hc hfb)
+  rw [← this]
+  exact scanVisits_lines_irrelevant checks nm' lines' lines {} _
+
+/-- … and so do the reported findings, the withheld ones and the counters -/
+theorem equivariant_findings (ρ : Nat → Nat) (hρ : StrictMonoNat ρ) (checks : List Check) (hc : ∀ c ∈ checks, CheckCovered c)
+    (root : Node) (hwf : TreeWF root) (hfb : FallbackOK ρ checks root)
+    (nm nm' : NosecMap) (hm : NosecMoved ρ nm nm') (lines lines' : List Str) :
+    let es' := scanVisits checks nm' lines' {} (visits (root.renum ρ))
+    let es := scanVisits checks nm lines {} (visits root)
+    findingsOf es' = (findingsOf es).map (Finding.renum ρ) ∧ withheldOf es' = (withheldOf es).map (Finding.renum ρ) ∧
+      nosecCount es' = nosecCount es ∧ skippedCount es' = skippedCount es ∧ crashesOf es' = crashesOf es := by
+  intro es' es
+  have h : es' = es.map (Event.renum ρ) := equivariant ρ hρ checks hc root hwf hfb nm nm' hm lines lines'
+  rw [h]
+  refine ⟨?_, ?_, ?_, ?_, ?_⟩
+  · induction es with
+    | nil => rfl
+    | cons e es ih => cases e <;> simp_all [findingsOf, Event.renum, List.filterMap_cons]
+  · induction es with
+    | nil => rfl
+    | cons e es ih => cases e <;> simp_all [withheldOf, Event.renum, List.filterMap_cons]
+  · induction es with
+    | nil => rfl
+    | cons e es ih => cases e <;> simp_all [nosecCount, Event.renum, List.filter_cons]
+  · induction es with
+    | nil => rfl
+    | cons e es ih => cases e <;> simp_all [skippedCount, Event.renum, List.filter_cons]
+  · induction es with
+    | nil => rfl
+    | cons e es ih => cases e <;> simp_all [crashesOf, Event.renum, List.filterMap_cons]
+
+/-! ### Inserting lines -/
+
+/-- what inserting `k` lines before line `L` does to a finding whose range is the span `lo..hi` -/
+theorem insert_finding (L k : Nat) (f : Finding) (lo hi : Nat) (hr : f.range = rangeList lo hi) :
+    (f.renum (insertLines L k)).line = (if f.line < L then f.line else f.line + k) ∧
+    (f.renum (insertLines L k)).range = rangeList (if lo < L then lo else lo + k) (if hi < L then hi else hi + k) ∧
+    (f.renum (insertLines L k)).col = f.col ∧ (f.renum (insertLines L k)).id = f.id ∧
+    (f.renum (insertLines L k)).sev = f.sev ∧ (f.renum (insertLines L k)).conf = f.conf := by
+  refine ⟨rfl, ?_, rfl, rfl, rfl, rfl⟩
+  simp only [Finding.renum, hr, rangeMap_rangeList (insertLines_strictMono L k)]
+  rfl
+
+/-- a finding that lies entirely above the insertion point is untouched -/
+theorem insert_above_unchanged (L k : Nat) (f : Finding) (lo hi : Nat) (hr : f.range = rangeList lo hi)
+    (hl : f.line < L) (hh : hi < L) (hlo : lo ≤ hi) : f.renum (insertLines L k) = f := by
+  obtain ⟨h1, h2, _⟩ := insert_finding L k f lo hi hr
+  have hlo' : lo < L := by omega
+  cases f with
+  | mk id sev conf line range col =>
+    simp only [Finding.renum, Finding.mk.injEq, true_and, and_true] at h1 h2 ⊢
+    simp only at hl hr
+    refine ⟨by rw [h1]; simp [hl], ?_⟩
+    rw [h2, hr]; simp [hlo', hh]
+
+/-- a finding that lies entirely at or below the insertion point moves down by exactly `k` lines and
+keeps its length -/
+theorem insert_below_shifts (L k : Nat) (f : Finding) (lo hi : Nat) (hr : f.range = rangeList lo hi)
+    (hl : L ≤ f.line) (hlo : L ≤ lo) (hle : lo ≤ hi) :
+    (f.renum (insertLines L k)).line = f.line + k ∧ (f.renum (insertLines L k)).range = f.range.map (· + k) := by
+  obtain ⟨h1, h2, _⟩ := insert_finding L k f lo hi hr
+  refine ⟨by rw [h1]; simp [Nat.not_lt.mpr hl], ?_⟩
+  rw [h2, hr]
+  have a : ¬ lo < L := by omega
+  have b : ¬ hi < L := by omega
+  simp only [a, b, if_false]
+  apply List.ext_getElem
+  · simp [rangeList_length]; omega
+  · intro i h1 h2
+    simp only [List.getElem_map, rangeList_getElem]; omega
+
+/-- a construct that spans the insertion point keeps its first line and grows by exactly `k` lines -/
+theorem insert_inside_grows (L k : Nat) (f : Finding) (lo hi : Nat) (hr : f.range = rangeList lo hi)
+    (hlo : lo < L) (hhi : L ≤ hi) :
+    (f.renum (insertLines L k)).range = rangeList lo (hi + k) ∧
+    ((f.renum (insertLines L k)).range).length = f.range.length + k := by
+  obtain ⟨_, h2, _⟩ := insert_finding L k f lo hi hr
+  have b : ¬ hi < L := by omega
+  rw [h2, hr]
+  simp only [hlo, b, if_true, if_false, rangeList_length, true_and]
+  omega
+
+/-- **Inserting blank or ordinary comment lines.**  Insert `k` lines before line `L ≥ 2` (for `L = 1` use
+`equivariant` with the second alternative of `FallbackOK`): the positions of the tree move along
+`insertLines L k`, the inserted lines carry no nosec comment.  Then the edited file yields exactly the
+events of the original with every location moved along `insertLines L k` — by `insert_finding`: lines
+`≥ L` shifted by `k`, lines `< L` unchanged, ranges as intervals — and nothing else changes. -/
+theorem insert_shifts (L k : Nat) (hL : 2 ≤ L) (checks : List Check) (hc : ∀ c ∈ checks, CheckCovered c)
+    (root : Node) (hwf : TreeWF root) (nm nm' : NosecMap) (hm : NosecMoved (insertLines L k) nm nm') (lines lines' : List Str) :
+    scanVisits checks nm' lines' {} (visits (root.renum (insertLines L k)))
+      = (scanVisits checks nm lines {} (visits root)).map (Event.renum (insertLines L k)) := by
+  apply equivariant _ (insertLines_strictMono L k) checks hc root hwf _ nm nm' hm
+  left
+  constructor
+  · simp only [insertLines]; split <;> omega
+  · simp only [insertLines]; split <;> omega
+
+/-- the nosec map of the edited file: every comment moved with its line, the inserted lines ordinary
+(`none`) comments or blank — the hypothesis `NosecMoved` is satisfiable for every map -/
+theorem nosecMoved_exists (ρ : Nat → Nat) (hρ : StrictMonoNat ρ) (nm : NosecMap) :
+    NosecMoved ρ nm (nm.map (fun e => (ρ e.1, e.2))) := by
+  have hget : ∀ (nm : NosecMap) (x : Nat),
+      NosecMap.get (nm.map (fun e => (ρ e.1, e.2))) x = (nm.find? (fun e => ρ e.1 == x)).bind (·.2) := by
+    intro nm x
+    simp only [NosecMap.get, List.find?_map]
+    have hp : ((fun e : Nat × Option (List Str) => e.1 == x) ∘ fun e : Nat × Option (List Str) => (ρ e.1, e.2)) = fun e : Nat × Option (List Str) => ρ e.1 == x := rfl
+    rw [hp]
+    cases nm.find? (fun e => ρ e.1 == x) with
+    | none => rfl
+    | some e => rfl
+  constructor
+  · intro l
+    rw [hget]
+    simp only [NosecMap.get]
+    have hp : (fun e : Nat × Option (List Str) => ρ e.1 == ρ l) = fun e => e.1 == l := by
+      funext e
+      by_cases he : e.1 = l
+      · simp [he]
+      · have : ρ e.1 ≠ ρ l := fun h => he (hρ.inj h)
+        rw [beq_eq_false_iff_ne.mpr this, beq_eq_false_iff_ne.mpr he]
+    rw [hp]
+  · intro x hx
+    rw [hget]
+    have : nm.find? (fun e => ρ e.1 == x) = none := by
+      rw [List.find?_eq_none]
+      intro e _
+      simpa using hx e.1
+    rw [this]; rfl
+
+/-! ### The hypotheses are satisfiable, and the real checks satisfy them -/
+
+/-- the checks of the core plugin families and the blacklist are covered by `equivariant`
+(every check of `miscChecks` and `shellChecks` and the blacklist wrapper: position-blind, locating
+relative to the node).  PARTIAL instance: the crypto / injection families are added by
+`Bandit.Proofs.RelLoc` as their `NoAbsF` lemmas are proved; B608 and B703 compare positions and need
+`PosInvariant` (not yet proved) — the general theorem above does not depend on this instance. -/
+theorem core_checks_covered_partial (pc : PluginCfg) (fn : Str) (cfg : Plugins.ShellCfg) (t : BlTables) :
+    ∀ c ∈ Plugins.miscChecks pc fn ++ Plugins.shellChecks cfg ++ (blacklistCheck t).toList, CheckCovered c := by
+  intro c hc
+  simp only [List.mem_append] at hc
+  rcases hc with (h | h) | h
+  · exact Or.inl (miscChecks_ok pc fn c h)
+  · exact Or.inl (shellChecks_ok cfg c h)
+  · cases hb : blacklistCheck t with
+    | none => rw [hb] at h; cases h
+    | some bc =>
+      rw [hb] at h
+      simp only [Option.toList, List.mem_singleton] at h
+      subst h
+      exact Or.inl (blacklistCheck_ok hb)
+
+/-- `x = 1` on line 1 (not in the tree below), a blank line 2, `exec(\n  code)` on lines 3–4 -/
+def exTree : Node :=
+  .mk "Module".toList none [] [("body".toList, true, [
+    Node.mk "Expr".toList (some ⟨3, 4, 0, 7⟩) [] [("value".toList, false, [
+      Node.mk "Call".toList (some ⟨3, 4, 0, 7⟩) [] [
+        ("func".toList, false, [Node.mk "Name".toList (some ⟨3, 3, 0, 4⟩) [("id".toList, Atom.str "exec".toList)] []]),
+        ("args".toList, true, [Node.mk "Name".toList (some ⟨4, 4, 2, 6⟩) [("id".toList, Atom.str "code".toList)] []]),
+        ("keywords".toList, true, [])]])]])]
+
+def exChecks : List Check := [.plugin "B102" "exec_used" ["Call".toList] Plugins.b102]
+
+/-- non-vacuity: a real tree and a real check meet every hypothesis of `insert_shifts` … -/
+example : TreeWF exTree ∧ (∀ c ∈ exChecks, CheckCovered c) ∧
+    NosecMoved (insertLines 2 5) [(4, some [])] ([(4, some [])].map (fun e => (insertLines 2 5 e.1, e.2))) :=
+  ⟨⟨by decide +kernel, by decide +kernel⟩,
+   by intro c hc; simp only [exChecks, List.mem_singleton] at hc; subst hc; exact Or.inl (plugin_ok b102_rel),
+   nosecMoved_exists _ (insertLines_strictMono 2 5) _⟩
+
+/-- … and the conclusion is not trivial: the B102 finding at line 3 (range 3–4) is reported at line 8
+(range 8–9) after five lines were inserted before line 2 -/
+example : findingsOf (scanVisits exChecks [] [] {} (visits exTree)) = [⟨"B102".toList, .medium, .high, 3, [3, 4], 0⟩] ∧
+    findingsOf (scanVisits exChecks [] [] {} (visits (exTree.renum (insertLines 2 5)))) = [⟨"B102".toList, .medium, .high, 8, [8, 9], 0⟩] :=
+  ⟨by decide +kernel, by decide +kernel⟩
 
 end Props.C10
